@@ -33,8 +33,11 @@ class QuoteBook(object):
     def bid_ask(self, asset):
         q = self.q.get(asset)
         if q is None:
-            # like the real handler: the numpy NaN singleton for "no quote"
             import numpy as np
+            if getattr(self, "fresh_nan", False):
+                # a NaN that is not the np.nan object (what a DataFrame cell or float('nan') gives)
+                return (np.float64("nan"), float("nan"))
+            # like the real handler: the numpy NaN singleton for "no quote"
             return (np.nan, np.nan)
         return q
 
